@@ -1,16 +1,18 @@
 SPECIFICATION Spec
 CONSTANTS
-  Dev <- DevHA
   TF = 3
   MaxLen = 5
   MaxChunk = 3
   Gaps = {0, 1, 2, 3, 4, 7}
   Offsets = {0, 1, 3}
   Lifes <- LifesAll
-  EmitOn = FALSE
+  EmitOn = TRUE
 INVARIANT NoError
-INVARIANT C11_HA
+INVARIANT Master
+INVARIANT C03_Resample
+INVARIANT C12_Fill
 INVARIANT C11_HA
 INVARIANT C15_Window
 INVARIANT NoReadings
+INVARIANT Emit
 CHECK_DEADLOCK FALSE
